@@ -16,7 +16,7 @@ import sys
 import warnings
 
 sys.path.insert(0, os.path.dirname(os.path.dirname(os.path.abspath(__file__))))
-from vlib import env, harness, gen_systems, gen_soc  # noqa: E402
+from vlib import env, harness, gen_systems, gen_soc, monitors  # noqa: E402
 import numpy as np  # noqa: E402
 
 PROP = "C26"
@@ -162,6 +162,8 @@ def case_R(ctx, rng, idx):
     common = sorted(set(keys[0]) & set(keys[1]))
     excluded = sorted(set(keys[0]) ^ set(keys[1]))
     sysa = check_real_space(ctx, interp.interpolate, s0, s1, common, excluded, alphas, wit, "SystemInterpolator", centres_differ)
+    for a_, s_ in sysa.items():
+        monitors.assert_no_stale_caches(ctx, s_, "interpolate", dict(wit, alpha=a_))
     unchanged(ctx, s0, snap0, wit, "system0")
     unchanged(ctx, s1, snap1, wit, "system1")
     if 0.0 not in sysa or not all(sysa[a].has_R_mat("Ham") for a in (0.0, 1.0)):
